@@ -8,6 +8,7 @@ import z3
 from .core import *  # noqa
 
 REGISTRY = {}
+LEMMAS = {}  # name -> function returning proof obligations (explicit inductions)
 THEORIES = {}  # name -> list of axioms; a contract opts in with `theories = (name, ...)`
 GLOBAL_AXIOMS = []  # definitional facts added to every obligation (listed in the evidence)
 
